@@ -164,6 +164,7 @@ def run(tier, replay_file=None):
     query_and_path(chk, ex)
     scalars(chk, ex)
     short_circuit(chk, ex)
+    tuple_extractors(chk, ex)
     witnesses(chk)
     return chk.finish('one obligation per (content-type shape x expected type / decoder / scalar width / glue function, execution path, reference case)')
 
@@ -397,7 +398,8 @@ def report_scalar(chk, m, ty, s, what):
 def short_circuit(chk, ex):
     f = ex.fns
     F_handle = [n for n in mir.find(f, r'handler::<impl at [^>]*>::handle_request$', unique=False) if 'HttpRouteHandler' in f[n].locals.get('_1', '')][0]
-    F_tuple1 = [n for n in mir.find(f, r'extractor::common::<impl at [^>]*>::from_request$', unique=False) if re.search(r'Result<\(X,\)', f[n].ret or '')]
+    F_tuple1 = [n for n in f if re.search(r'(^|::)common::<impl at [^>]*>::from_request(#\d+)?$', n) and re.search(r'Result<\(X,\)', f[n].ret or '')]
+    if len(F_tuple1) != 1: raise Inconclusive(f'cannot locate the one-element tuple extractor: {F_tuple1}')
     fails = z3.Bool('extraction_fails')
     est = z3.BitVec('extractor_error_status', 16)
     def mk_err(ex):
@@ -408,7 +410,7 @@ def short_circuit(chk, ex):
     def m_user_handler(ex, a, c):
         Env.handler_calls += 1
         return Opaque('readyfut', ex.ok(httpmodel.Response(200, HMap(), Opaque('body', 'handler-output'))))
-    local = [(r'^<FuncParams as RequestExtractor>::from_request::|^<X as ExclusiveExtractor>::from_request::', m_extract),
+    local = [(r'^<FuncParams as RequestExtractor>::from_request::|^<X as ExclusiveExtractor>::from_request::', m_extract, True),
              (r'^<HandlerType as HttpHandlerFunc<.*>>::handle_request(::<.*>)?$', m_user_handler),
              (r'<<HandlerType as HttpHandlerFunc<.*>>::Error as From<HttpError>>::from$', lambda ex, a, c: a[0]),
              (r'<HttpError as ToString>::to_string$|<E as ToString>::to_string$', lambda ex, a, c: 'error text')]
@@ -453,6 +455,61 @@ def short_circuit(chk, ex):
             if m is not None:
                 chk.mismatches.append(f'{label}: extraction failure does not short-circuit before the handler (calls={calls}, result={r}); '
                                       'replayed only through the wire witnesses')
+        if seen != {'ok', 'err'}: raise Inconclusive(f'vacuity: {label} outcomes {seen}; unsupported: {ex.unsupported_paths[-1:]}')
+
+
+def tuple_extractors(chk, ex):
+    """the macro-generated `impl RequestExtractor for (S1, .., X)`: futures::try_join! over the component extractors (executed from MIR with
+    models of MaybeDone / poll_fn): the tuple is delivered iff every component succeeds, with every value in its own position; otherwise the
+    result is the error of a failing component (a 4xx, as shown per extractor) and nothing else"""
+    f = ex.fns
+    F_tuples = [n for n in f if re.search(r'(^|::)common::<impl at [^>]*>::from_request(#\d+)?$', n) and re.search(r'Result<\(S1, (S2, )?X\)', f[n].ret or '')]
+    if len(F_tuples) != 2: raise Inconclusive(f'cannot locate the two- and three-element tuple extractors: {F_tuples}')
+    names = ['S1', 'S2', 'X']
+    fails = {n: z3.Bool(f'{n}_extraction_fails') for n in names}
+    est = {n: z3.BitVec(f'{n}_error_status', 16) for n in names}
+    vals = {n: Opaque(f'value-of-{n}') for n in names}
+    def mk_err(ex, n):
+        return ex.mk_struct('HttpError', status_code=Adt('ErrorStatusCode', 0, {None: [Cell(est[n])]}), error_code=ex.none(),
+                            external_message=SymStr(z3.Const(f'ext_msg_{n}', StrSort)), internal_message=SymStr(z3.Const(f'int_msg_{n}', StrSort)), headers=ex.none())
+    def m_extract(ex, a, c):
+        n = re.match(r'^<(S1|S2|X) as ', c).group(1)
+        return Opaque('readyfut', ex.err(mk_err(ex, n)) if ex.truth(fails[n]) else ex.ok(vals[n]))
+    local = [(r'^<(S1|S2) as SharedExtractor>::from_request::|^<X as ExclusiveExtractor>::from_request::', m_extract, True)]
+    base = [z3.And(z3.UGE(e, 400), z3.ULE(e, 499)) for e in est.values()]
+    for F in F_tuples:
+        comps = ['S1', 'S2', 'X'] if 'S2' in (f[F].ret or '') else ['S1', 'X']
+        label = f'tuple-of-{len(comps)}'
+        def h(ex):
+            fut = ex.call_fn(F, [Ref(Cell(Opaque('rqctx'))), Opaque('request')])
+            cell = AM.pinned(fut)
+            if isinstance(cell.v, Ref): cell = cell.v.cell
+            return AM.drive(ex, cell)
+        ex.models = local + ex.models
+        try:
+            outs = ex.explore(h, base)
+        finally:
+            ex.models = ex.models[len(local):]
+        chk.paths += len(outs)
+        seen = set()
+        any_fails = z3.Or([fails[n] for n in comps])
+        for pc, (k, r) in outs:
+            if k != 'ok':
+                m = chk.prove(f'{label}/no-panic', pc, z3.BoolVal(True), extra=base)
+                if m is not None: chk.mismatches.append(f'{label} extractor panics: {r}')
+                continue
+            if r.discr == 0:
+                seen.add('ok')
+                t = dv(ex.payload(r))
+                good = isinstance(t, Tup) and len(t.items) == len(comps) and all(dv(c.v) is vals[n] for c, n in zip(t.items, comps))
+                m = chk.prove(f'{label}/delivered-only-if-every-component-succeeds-each-in-its-position', pc, z3.Or(any_fails, z3.BoolVal(not good)), extra=base)
+            else:
+                seen.add('err')
+                st = httpmodel.status_of(ex, ex.payload(r))
+                from_failing = z3.Or([z3.And(fails[n], st == est[n]) for n in comps]) if z3.is_expr(st) or isinstance(st, int) else z3.BoolVal(False)
+                m = chk.prove(f'{label}/error-is-a-failing-components-error', pc, z3.Not(from_failing), extra=base)
+            if m is not None:
+                chk.mismatches.append(f'{label}: {dict((n, m.eval(fails[n], model_completion=True)) for n in comps)} -> {r} (multi-extractor endpoints are replayed only through the wire witnesses)')
         if seen != {'ok', 'err'}: raise Inconclusive(f'vacuity: {label} outcomes {seen}; unsupported: {ex.unsupported_paths[-1:]}')
 
 
